@@ -256,6 +256,21 @@ def run(rep, tier, seed):
             continue
         reqs.append((12, model_ops(names, txts, lookups)))
         metas.append((names, txts, lookups))
+    # letters whose case folding is not their lower-casing: storing, looking up and scanning must agree on str.lower()
+    for names, txts in (
+            ([('straße license', 1), ('mit', 2)], ['the straße license applies', 'STRASSE LICENSE strasse license', 'mit or STRAßE  License']),
+            ([('Maß', 1), ('mass', 2)], ['mit or Maß', 'MASS mass Maß maß']),
+            ([('ſmall print', 1), ('small print', 2)], ['see ſmall print here small print', 'SMALL PRINT']),
+            ([('λόγος', 1), ('λόγοσ', 2)], ['o λόγος λόγοσ 2.0']),
+            ([('ﬁle lic', 1), ('file lic', 2)], ['ﬁle lic file lic FILE LIC']),
+            ([('ᎠᎡ 1.0', 1), ('1.0', 2)], ['under ᎠᎡ 1.0 only'])):
+        lookups = [names[0][0], names[0][0].upper(), names[-1][0], 'x']
+        # the model lower-cases character by character: keep only strings on which str.lower() does the same (no final sigma)
+        lookups = [q for q in lookups if ''.join(c.lower() for c in q) == q.lower()]
+        assert all(''.join(c.lower() for c in x) == x.lower() for x in [n_ for n_, _ in names] + txts)
+        reqs.append((12, model_ops(names, txts, lookups)))
+        metas.append((names, txts, lookups))
+        rep.count('case_fold_name_sets')
     res = run_model(reqs, chunk=200)
     for (names, txts, lookups), r in zip(metas, res):
         err, obs = run_case(names, txts, lookups, le)
